@@ -46,6 +46,36 @@ CHECKS = {
    note=COMMON_NOTE + 'Theorems closed under the global context. Families currently covered: backward reasoner (3 goals), quick_term_or_rec, run_quick_machine; '
         'cps/segment families are included automatically once their harness commands exist.',
    tech='Rocq/Coq proof (generic loop monotonicity) + paired-limit check on the implementation + model correspondence'),
+ 'C11': dict(cat='proof', sec='DESIGN.md §6 C11, §5 F4/F6/F7/F8',
+   text='Coq theorems over the Gallina model of rules.rs (with its i32 truncation, checked_sub/checked_mul/checked_add and panics explicit): '
+        'C11_diff_exact / C11_make_rule_exact (an inferred additive rule reproduces all four count vectors when the true differences fit i32; '
+        'C11_diff_boundary shows the hypothesis is sharp), C11_count_apps_max / _first / _none (times is the LARGEST number of applications leaving every '
+        'decreasing block >= 1), C11_apply_exact (every affected block changes by exactly difference x times, nothing else changes), '
+        'C11_apply_none_untouched / _iff (a rule that is not applied leaves the tape untouched). The three defects found while proving (F4 signed update, '
+        'F7 partial write, F8 unchecked add) are repaired by fix: commits in /repo and their pre-fix definitions are refuted by machine-checked witnesses. '
+        'Tie: real make_rule/count_apps/apply_rule vs extracted model on exhaustive small rule spaces and random counts to 2^62 / diffs to 2^20 incl. '
+        'overflow, boundary and panic classes; an independent integer oracle judges every implementation answer; thorough also runs the release '
+        '(wrapping) profile.',
+   note=COMMON_NOTE + 'Theorems closed under the global context; each is conditional on the model returning Ok (panics are tied by correspondence only).',
+   tech='Rocq/Coq proof (arithmetic exactness, maximality) + model/implementation correspondence + integer oracle'),
+ 'C13': dict(cat='proof', sec='DESIGN.md §6 C13',
+   text='Coq theorems over the Gallina model of instrs.rs (strings as code-point lists; trim/split/to_digit/as-u8 arithmetic and panics explicit): '
+        'C13_show_parse, C13_parse_show, C13_parse_places (row/column placement), C13_show_well_formed, C13_parse_table_ok, token round trips '
+        'C13_instr_rt / C13_slot_rt / C13_state_rt in both directions, C13_show_none_params / C13_parse_show_none (inferred size). Proved for all '
+        'table sizes (the 26 x 10 bounds of the property are not even needed). Tie: real from_str/show/read_*/show_* vs extracted model on all tokens, '
+        'one-character corruptions, random tables of every size 1..26 x 1..10, malformed texts (value vs PANIC must agree); an independent Python oracle '
+        'checks the round trips on the implementation answers.',
+   note=COMMON_NOTE + 'Theorems closed under the global context.',
+   tech='Rocq/Coq proof (round-trip laws) + model/implementation correspondence + independent oracle'),
+ 'C14': dict(cat='proof', sec='DESIGN.md §6 C14',
+   text='Coq theorems over the Gallina model of graph.rs: C14_false_sound / C14_false_not_sc (false implies some state has no exit or cannot reach the start: '
+        'not strongly connected), C14_sc_true (a strongly connected program is never discarded), C14_bound_never_cuts (the `for _ in 0..states` bound never cuts '
+        'the DFS short), C14_exact (exact meaning of the answer), C14_no_panic, C14_true_sc_given_order and C14_tnf_iff (for programs in tree normal form - stated '
+        'on the real machine run: states first entered in increasing order, every defined slot used - true iff strongly connected), C14_from_str_wf. '
+        'Tie: real is_connected vs extracted model on all edge sets on <= 4 states, random graphs to 6 states, tree programs; Floyd-Warshall oracle on the '
+        'implementation answers (false => not SC; TNF: true <=> SC; answer = C14_exact spec; no panic in range).',
+   note=COMMON_NOTE + 'Theorems closed under the global context. Strong-connectivity statements need >= 2 states (a 1-state graph gets false by construction).',
+   tech='Rocq/Coq proof (DFS invariant, pigeonhole on the bound) + model/implementation correspondence + graph oracle'),
  'C12': dict(cat='proof', sec='DESIGN.md §6 C12',
    text='Coq theorems over the Gallina model of tape.rs: canonical form is an invariant of Tape::step for every direction/colour/sweep flag '
         'and hence every history (induction), canonical tapes are unique representations of their cells, and marks/blank/at_edge/blocks/'
